@@ -106,3 +106,35 @@ func cmdReplay(args []string) int {
 	fmt.Println("solver output:", rec["solver_output"])
 	return 1
 }
+
+
+// runBounded executes the Go expression of a bounded check for every combination of its variables.
+func runBounded(bc *BoundedCheck) (bool, int64, string) {
+	pkgPath := pkgDirToPath(bc.Pkg)
+	pkgDir := strings.TrimPrefix(pkgPath, repoModule+"/")
+	parts := strings.Split(pkgDir, "/")
+	pkgName := parts[len(parts)-1]
+	if pkgDir == "server" {
+		pkgName = "main"
+	}
+	var sb strings.Builder
+	fmt.Fprintf(&sb, "package %s\n\nimport (\n\t\"fmt\"\n\t\"testing\"\n)\n\nfunc TestVerifBounded(t *testing.T) {\n\tevals_ := 0\n", pkgName)
+	for _, v := range bc.Vars {
+		fmt.Fprintf(&sb, "\tfor _%s := int64(%d); _%s <= %d; _%s++ {\n\t%s := %s(_%s)\n", v.Name, v.Lo, v.Name, v.Hi, v.Name, v.Name, v.Type, v.Name)
+	}
+	sb.WriteString("\tevals_++\n\tif !(" + bc.GoExpr + ") {\n\t\tfmt.Println(\"VERIF-BOUNDED counterexample:\"")
+	for _, v := range bc.Vars {
+		fmt.Fprintf(&sb, ", \"%s=\", %s", v.Name, v.Name)
+	}
+	sb.WriteString(")\n\t\tt.FailNow()\n\t}\n")
+	for range bc.Vars {
+		sb.WriteString("\t}\n")
+	}
+	sb.WriteString("\tfmt.Println(\"VERIF-BOUNDED evaluations=\", evals_)\n}\n")
+	out, failed := runGoTest(pkgDir, sb.String(), "TestVerifBounded", "verif")
+	var evals int64
+	if i := strings.Index(out, "VERIF-BOUNDED evaluations= "); i >= 0 {
+		fmt.Sscanf(out[i+len("VERIF-BOUNDED evaluations= "):], "%d", &evals)
+	}
+	return !failed && evals > 0, evals, out
+}
